@@ -137,6 +137,29 @@ def coexist(ctx, a1, a2, api, by_hash=False):
     expect_bytes(ctx, scn.read("k2"), data, tag + ":cross-effect", "the %s entry after the %s copy was damaged" % (a2, a1))
 
 
+def restore(ctx, e1, e2, api):
+    """The stored copy is damaged in place (any other bytes, in particular other bytes of the same length), then the
+    same data is stored again through another entry point: a store that reports success must leave its key and
+    the returned address resolving to the data -- the address names the bytes, not whatever file happens to sit there."""
+    scn = ctx.new_scn(api=api)
+    D = scn.blob("D")
+    data = scn.whole(D)
+    tag = "C16:%s:restore:%s-then-%s" % (api, e1, e2)
+    r1 = store(scn, e1, "k1", D, None)
+    if not expect_sri(ctx, r1, data, "Sha256", tag + ":first", "first store"):
+        return
+    cpath = scn.content_path_of(r1.value)
+    F = scn.blob("F")
+    scn.distinct(F, D)
+    scn.fs_set(cpath, scn.whole(F))
+    r2 = store(scn, e2, "k2", D, None)
+    if not expect_sri(ctx, r2, data, "Sha256", tag + ":second", "store of the same bytes over a damaged copy"):
+        return
+    if "hash" not in e2:
+        expect_bytes(ctx, scn.read("k2"), data, tag + ":read-k2", "reading the key just stored over a damaged copy")
+    expect_bytes(ctx, scn.read_hash(r2.value), data, tag + ":read-hash", "reading the address just returned by a store over a damaged copy")
+
+
 def tasks(tier, flavours):
     out = []
     for fl in flavours:
@@ -147,6 +170,11 @@ def tasks(tier, flavours):
         for k, (e1, e2) in enumerate(pairs):
             algo = [None, "Sha1", "Sha512", "Xxh3", "Sha384"][k % 5]
             out.append(dict(module="C16", family="dedup", flavour=fl, params=dict(e1=e1, e2=e2, algo=algo, api=api)))
+        rp = [(a, b) for a in ENTRIES for b in ENTRIES]
+        if tier == "quick":
+            rp = [p for k, p in enumerate(rp) if k % 4 == 0]
+        for e1, e2 in rp:
+            out.append(dict(module="C16", family="restore", flavour=fl, params=dict(e1=e1, e2=e2, api=api)))
         for a1, a2 in (("Sha256", "Sha1"), ("Sha512", "Sha256"), ("Xxh3", "Sha384"), ("Sha1", "Sha512")):
             out.append(dict(module="C16", family="coexist", flavour=fl, params=dict(a1=a1, a2=a2, api=api)))
             out.append(dict(module="C16", family="coexist", flavour=fl, params=dict(a1=a1, a2=a2, api=api, by_hash=True)))
